@@ -578,6 +578,22 @@ def tn_cases(cases):
                                       {"tag": "tblno", "nscans": None, "expect_tn": tn_expect(path, which, idx, arith, opt, mode)}))
 
 
+def param_api_cases(rng, cases):
+    """jcparam.c: jpeg_set_quality / jpeg_set_linear_quality tables; jpeg_set_colorspace / jpeg_default_colorspace"""
+    for q in (-5, 0, 1, 2, 24, 25, 49, 50, 51, 75, 99, 100, 101, 1000):
+        for force in (0, 1):
+            cases.append(("qs %d %d 0 0" % (q, force), "qs", {"nscans": None}))
+    for scale in (-100, -1, 0, 1, 49, 50, 100, 200, 5000, 12800, 100000, 2147483):
+        for force in (0, 1):
+            cases.append(("qs 0 %d 1 %d" % (force, scale), "qs", {"nscans": None}))
+    for cs in range(-1, 19):
+        for incomp in (0, 1, 3, 4, 10, 11):
+            cases.append(("cs 0 %d %d 0" % (cs, incomp), "cs", {"nscans": None}))
+            for lossless in (0, 1):
+                if incomp in (1, 3, 4, 11):
+                    cases.append(("cs 1 %d %d %d" % (cs, incomp, lossless), "cs", {"nscans": None}))
+
+
 def api_cases(cases):
     """jpeg_write_tables + abbreviated image (all coder combinations); jpeg_write_marker in every API state"""
     for nc in (1, 3):
@@ -832,6 +848,7 @@ def run(ctx):
         gen_hdr(rng, cases)
     tn_cases(cases)
     api_cases(cases)
+    param_api_cases(rng, cases)
     return run_cases(ctx, cases, exes, drv, flavours)
 
 
